@@ -2,5 +2,5 @@
 # usage: trymut.sh <mutant-name> [percent]  -- apply one mutant to a scratch copy and run its property's quick check
 N=$1; PC=${2:-50}; ID=${N%%-*}
 D=$(mktemp -d /tmp/trymut-XXXX); rsync -a --exclude .git /repo/ $D/repo/ && (cd $D/repo && patch -s -p1 < /verif/mutants/$N.patch) || { echo PATCH-FAILED; exit 2; }
-/verif/tryseed.sh $D/repo $ID $PC | grep -v "^check: built"
+/verif/tryseed.sh $D/repo $ID $PC | grep -a -v "^check: built"
 rm -rf $D
